@@ -15,7 +15,7 @@ def workload(tier: str, seed: int) -> tuple[list[dict], dict]:
         want = {"corpus": 1, "core-exh": 100000, "core-rand": 1500, "edge": 150}
         ks, s2 = (2, 3), 3
     defs = lcase.definitions(tier, seed, want)
-    cases, stats = lcase.s1_cases(defs, seed, k_list=ks, schedules=2, check_extra=False)
+    cases, stats = lcase.s1_cases(defs, seed, k_list=ks, schedules=2, corpus_schedules=8, check_extra=False)
     c2, st2 = lcase.s2_cases(defs, seed, per_def=s2)
     stats.update(st2)
     stats["definitions"] = len(defs)
